@@ -28,6 +28,7 @@ func register(name string, c Command) { commands[name] = c }
 
 func init() {
 	register("schemaops", func(a Args) { schemaOps(a.Seed, a.N, a.Out, a.Streams, a.Replay) })
+	register("op-child", func(a Args) { opChild() })
 }
 
 func main() {
